@@ -4,6 +4,7 @@ package main
 
 import (
 	"fmt"
+	"go/types"
 	"sort"
 	"strings"
 
@@ -154,6 +155,36 @@ func checkC14(c *Ctx) Meta {
 		exemptField: func(t, f string) bool { return f == "mu" },
 	})
 	c.Note("fields stored after construction: %d; store/access pairs examined: %d", nF, nP)
+	// lock identity: the per-instance argument above is only valid if a lock-carrying object is never
+	// copied by value (the copy gets its own mutex but shares the maps and pointers)
+	c.Rule("C14-COPY", "objects of the lock-carrying shared types (KeystoreManagerForPoC, AddrManager) are never copied by value anywhere in the repository", 1)
+	lockCarrying := map[string]bool{tKMC: true, tAddrMgr: true}
+	nCopy := 0
+	var cfns []*ssa.Function
+	for fn := range c.AllFuncs {
+		cfns = append(cfns, fn)
+	}
+	sort.Slice(cfns, func(i, j int) bool { return cfns[i].String() < cfns[j].String() })
+	for _, fn := range cfns {
+		allInstrs(fn, func(in ssa.Instruction) {
+			v, ok := in.(ssa.Value)
+			if !ok {
+				return
+			}
+			n, isNamed := v.Type().(*types.Named)
+			if !isNamed || !lockCarrying[typeFullName(n)] {
+				return
+			}
+			switch in.(type) {
+			case *ssa.UnOp, *ssa.Call, *ssa.Phi, *ssa.Extract, *ssa.Field, *ssa.Lookup, *ssa.Index, *ssa.TypeAssert:
+				nCopy++
+				c.Bad("C14-COPY", FuncName(fn)+":copies:"+shortType(typeFullName(n)), c.Pos(in.Pos()), "a "+shortType(typeFullName(n))+" is copied by value: the copy carries its own mutex while sharing the address map and key objects with the original, so holders of the copy and of the original exclude nobody")
+			}
+		})
+	}
+	if nCopy == 0 {
+		c.OK("C14-COPY", "no-value-copies", "", fmt.Sprintf("%d functions scanned, no value of a lock-carrying type is loaded, returned or passed by value", len(cfns)))
+	}
 	return Meta{
 		Explanation: "Decides only the lock-discipline half of 'free of data races': computed must-held locksets (forward dataflow per function, entry locksets by intersection over call sites to a fixpoint, closures passed to db.Update/View inherit the call site's lockset) and the pairwise rule store-vs-any-access on the shared wallet types. A violation names the two sites and both locksets.",
 		NotDecided:  "linearizability; races on pointees mutated through method calls on a loaded pointer (snacl.SecretKey.Zero/DeriveKey, ManagedAddress fields, which escape to callers by design); races inside mass-core or leveldb.",
